@@ -1272,6 +1272,8 @@ class Layout:
     lead_amp: bool = False
     label_every: int = 0  # free form: every n-th executable / END-of-construct statement carries a numeric statement label
     labelled_do: bool = False  # free form: every other unnamed DO construct is written 'do 110 i = ...' / '110 continue'
+    label_reuse: bool = False  # statement labels start again in every procedure (a label belongs to its scoping unit)
+    label_end_do: bool = False  # every other labelled DO ends with '110 end do' instead of '110 continue'
     split_pos: int = 0  # 0: break a statement in the middle; k > 0: after its (1 + (k-1) mod (n-1))-th piece, e.g. right after the keyword
     amp_tight: bool = False  # with lead_amp: the text follows the leading '&' directly ('&name' instead of '& name')
     cont_col1: bool = False  # without lead_amp: the continuation line starts in column 1
@@ -1305,6 +1307,8 @@ layout_st = st.builds(
     split_pos=st.sampled_from([0, 0, 1, 1, 2, 3, 5]),
     label_every=st.sampled_from([0, 0, 0, 2, 3, 5]),
     labelled_do=st.sampled_from([False, False, True]),
+    label_reuse=st.booleans(),
+    label_end_do=st.booleans(),
     cont_col1=st.booleans(),
     cont_blank=st.sampled_from([None, None, "", "   ", " "]),
     fixed_tight=st.booleans(),
@@ -1521,6 +1525,8 @@ def render(prog: Program, layout: Layout = PLAIN, suffix=None) -> Rendered:
                 elif style == "joined":
                     toks = ["end" + toks[0][4:]] + list(toks[1:])
             # statement labels (free form allows them as well): labelled DO ... CONTINUE, labels on END DO / END IF / ...
+            if layout.label_reuse and s.kind in ("open-unit", "open-proc"):
+                next_label = 100
             if layout.labelled_do and s.kind == "open-construct" and toks and toks[0] == "do ":
                 ndo += 1
                 if ndo % 2 == 1:
@@ -1529,7 +1535,8 @@ def render(prog: Program, layout: Layout = PLAIN, suffix=None) -> Rendered:
                     toks = [f"do {next_label} "] + list(toks[1:])
             elif s.kind == "close-construct" and s.closes in do_labels:
                 stmt_label = do_labels.pop(s.closes)
-                toks = ["continue"]
+                if not (layout.label_end_do and (stmt_label // 10) % 2 == 0):
+                    toks = ["continue"]
             elif layout.label_every and s.kind in ("exec", "close-construct"):
                 nlab += 1
                 if nlab % layout.label_every == 0:
